@@ -26,6 +26,10 @@ def call(sel, nreq, req, use_chunks, subset, seed, variant=0):
     np.random.seed(seed)
     n = None if nreq == NONE else nreq
     sub = None if list(subset) == [NONE] else np.asarray(subset, dtype=np.int64)
+    if sub is not None and variant % 3 == 1:
+        sub = sub[::-1]                      # the subset is a SET of spike ids: given in decreasing order
+    elif sub is not None and variant % 3 == 2:
+        sub = list(np.random.RandomState(seed).permutation(sub))       # shuffled, as a list
     cl = list(req) if variant % 2 else np.asarray(req, dtype=np.int64)
     out = sel(n, cl, subset_chunks=use_chunks, subset_spikes=sub)
     return as_list(out)
